@@ -69,8 +69,13 @@ impl Device {
 
     pub fn check_operation(&self, op: &Operation) -> bool {
         match op {
-            Operation::Mul => self.allow(NoMul),
-            Operation::Jmp => self.allow(NoJmp),
+            Operation::Mul
+            | Operation::Muls
+            | Operation::Mulsu
+            | Operation::Fmul
+            | Operation::Fmuls
+            | Operation::Fmulsu => self.allow(NoMul),
+            Operation::Jmp | Operation::Call => self.allow(NoJmp),
             Operation::Lpm => self.allow(NoLpm),
             Operation::Elpm => self.allow(NoElpm),
             Operation::Spm => self.allow(NoSpm),
